@@ -67,6 +67,7 @@ type Scenario struct {
 	Namespaces []string      // namespace admitter (as `-n`)
 	Snap       bool          // take a GetProcessesState snapshot at every quiescent choice point
 	EnvCost    int           // cost of a non-default environment event at quiescence (0 = all orders explored)
+	Transport  string        // C19: "rest" or "direct"
 	AuxAsEnv   bool          // the completion of an auxiliary command is an environment event (else a thread step)
 	Setup      func(w *World)
 	Check      func(w *World) []Violation
